@@ -29,7 +29,7 @@ def strategy_(draw, tier):
     cls = draw(st.sampled_from(["FPS", "PCovFPS"]))
     direction = draw(st.sampled_from(["feature", "sample"]))
     n, m = S.draw_shape(draw, tier, thorough=(60, 30))
-    kind = draw(st.sampled_from(["lattice", "lattice", "clustered", "dup", "eighths", "generic", "lowrank", "scaled", "tiny", "huge"]))
+    kind = draw(st.sampled_from(["lattice", "lattice", "clustered", "dup", "eighths", "generic", "lowrank", "scaled", "tiny", "huge", "narrowint"]))
     X = gen.matrix(draw, n, m, kind)
     N = S.n_items(X, direction)
     y = S.draw_y(draw, n, X) if (cls == "PCovFPS" or draw(st.booleans())) else None
@@ -50,6 +50,8 @@ def strategy_(draw, tier):
         params["mixing"] = draw(st.one_of(st.sampled_from([0.0, 0.1, 0.5, 0.9, 0.99]),
                                           st.floats(0, 0.96875, width=32)))
     req = S.draw_request(draw, N, minimum=n_init, forms=("int", "int", "int", "none", "float"))
+    if kind == "narrowint":
+        y = S.narrow(draw, X, y, params)
     return {"cls": cls, "direction": direction, "kind": kind, "X": X, "y": y, "params": params, "request": req}
 
 
